@@ -99,6 +99,8 @@ class Tr:
                     return f"(max' {args[0]} {args[1]})"
                 if name == "minimum" and len(args) == 2:
                     return f"(min' {args[0]} {args[1]})"
+                if name in ("abs", "fabs", "absolute") and len(args) == 1:
+                    return f"(abs' {args[0]})"
                 raise Unsupported(f"call np.{name}")
             if isinstance(f, ast.Attribute) and isinstance(f.value, ast.Name) and f.value.id == "self":
                 name = f.attr
@@ -113,6 +115,13 @@ class Tr:
                 if len(args) != ar:
                     raise Unsupported(f"arity of {f.id}")
                 return "(" + " ".join([ln] + args) + ")"
+            if isinstance(f, ast.Name) and f.id == "abs" and len(args) == 1:
+                return f"(abs' {args[0]})"
+            if isinstance(f, ast.Name) and f.id == "max" and len(args) == 2:
+                # Python's max(a, b) returns b only when b > a
+                return f"(max' {args[0]} {args[1]})"
+            if isinstance(f, ast.Name) and f.id == "min" and len(args) == 2:
+                return f"(min' {args[0]} {args[1]})"
             raise Unsupported(f"call {ast.dump(f)}")
         raise Unsupported(ast.dump(e))
 
